@@ -290,6 +290,7 @@ def run(c):
     if outs is not None:
         c.obligation("correspondence: Model/Plan+Join == compile()+DuckDB on filtered queries (%d compared)" % stats["compared_spec"], not fid_bad, "correspondence", json.dumps(fid_bad[:1], default=str)[:1800])
     having_and_local(c, stats)
+    suffix_names(c, stats)
     c.obligation("oracle: semi-join spec and metamorphic filter forms agree on %d queries x 5 forms" % len(cases), not c.violations, "correspondence")
     c.coverage.update({"evaluations": stats["variants_run"], "distinct_nontrivial": nontrivial,
                        "rule": "forests of 1-4 models x queries with 1-3 filters (comparisons, IN, BETWEEN, LIKE, IS [NOT] NULL, NOT, single-model OR, literals with quotes / model names / keywords) on selected and "
@@ -324,6 +325,53 @@ def having_and_local(c, stats):
         stats["metric_local"] += 1
         if dbutil.canon_rows([r[:2] for r in loc]) != dbutil.canon_rows([r[:2] for r in base]):
             c.violation("a filter declared on one metric changes another metric", {"kind": "local", "forest": f, "without": [list(map(str, r)) for r in base], "with": [list(map(str, r)) for r in loc]})
+
+
+def rename_forest(f, mapping):
+    import copy
+    g = copy.deepcopy(f)
+    for m in g["models"]:
+        m["name"] = mapping.get(m["name"], m["name"])
+        for r in m["rels"]:
+            r["name"] = mapping.get(r["name"], r["name"])
+            if r.get("through"):
+                r["through"] = mapping.get(r["through"], r["through"])
+    return g
+
+
+def suffix_names(c, stats):
+    """(c) model names where one ends with the other (items / line_items): a filter over a metric's VALUE and a row filter, each on the longer-named model,
+    in a query whose base model is the shorter-named one; the value filter must equal post-filtering of the unfiltered result"""
+    from harness import dbutil
+    for k in range(10 if c.tier == "quick" else 80):
+        f0 = jg.gen_forest(c.rng, nmodels=2, allow_m2m=False, null_measures=False)
+        if not f0["links"]:
+            continue
+        ci, pi, ty, comp = f0["links"][0]
+        short, long_ = f0["models"][pi]["name"], f0["models"][ci]["name"]
+        f = rename_forest(f0, {short: "items", long_: c.rng.choice(["line_items", "xitems", "order_items"])})
+        child, parent = f["models"][ci]["name"], f["models"][pi]["name"]
+        q0 = dict(dims=[(parent, jg.jcol("s0"))], mets=[(child, "sum", jg.jcol("c0"), [])], filters=[])
+        dbm, mbm, drefs, mrefs = c02.field_names(q0)
+        thr = c.rng.choice([0, 1, 2, 5])
+        try:
+            L = jg.real_layer(f, mbm, dbm)
+            base = L.conn.execute(L.compile(metrics=mrefs, dimensions=drefs)).fetchall()
+        except Exception as e:
+            c.violation("query over models named %s / %s fails: %s" % (parent, child, str(e)[:150]), {"kind": "suffix_names", "forest": f, "threshold": thr})
+            continue
+        stats["suffix_names"] = stats.get("suffix_names", 0) + 1
+        for flt, want in (("%s.m0 > %d" % (child, thr), [r for r in base if r[1] is not None and r[1] > thr]), ("%s.m0 >= %d AND %s.m0 < 1000000" % (child, thr, child), [r for r in base if r[1] is not None and r[1] >= thr])):
+            try:
+                got = L.conn.execute(L.compile(metrics=mrefs, dimensions=drefs, filters=[flt])).fetchall()
+            except Exception as e:
+                c.violation("a filter over a metric's value fails when one model's name ends with another's (%s / %s): %s" % (parent, child, str(e)[:140].replace("\n", " ")),
+                            {"kind": "suffix_names", "forest": f, "filter": flt, "unfiltered": [list(map(str, r)) for r in base]})
+                break
+            if dbutil.canon_rows(got) != dbutil.canon_rows(want):
+                c.violation("a filter over a metric's value is not applied after aggregation (models %s / %s)" % (parent, child),
+                            {"kind": "suffix_names", "forest": f, "filter": flt, "unfiltered": [list(map(str, r)) for r in base], "filtered": [list(map(str, r)) for r in got]})
+                break
 
 
 def replay(path):
